@@ -5,9 +5,12 @@
 (* reported for every history enumerated by OptPareto, judged by the       *)
 (* relation FrontAcceptable.                                               *)
 (*  report = [pts, mask : <<indices kept by the filter>>, maskb,           *)
-(*            front : <<[idx, o]>> (x_optima / f_optima), frontb]          *)
+(*            front : <<[idx, o]>> (x_optima / f_optima), frontb,          *)
+(*            mo : [skipped, built, has, front] (the pareto_front field of *)
+(*                 MultiObjectiveOptimizationResult.from_optimization_problem)] *)
 (* A front that could not be built is accepted only when the filter itself *)
-(* kept no point (nothing to report).                                      *)
+(* kept no point (nothing to report); the verdict then tells whether a     *)
+(* feasible point with an objective existed (all of them duplicated).      *)
 (***************************************************************************)
 EXTENDS OptPareto
 
@@ -21,9 +24,17 @@ RNext == UNCHANGED <<pts, tid>>
 
 MaskAsFront == {[idx |-> i, o |-> IF i \in 1..Len(pts) THEN pts[i].o ELSE <<>>] : i \in ToSet(R.mask)}
 MaskV == IF ~R.maskb THEN "Raised" ELSE FrontVerdict(pts, MaskAsFront)
-FrontV == IF ~R.frontb THEN (IF R.maskb /\ R.mask = <<>> THEN "nothing_to_report" ELSE "Raised")
-          ELSE FrontVerdict(pts, ToSet(R.front))
-Judge == PrintT(ToJson(<<"P", tid, MaskV, FrontV>>))
+SomeFeasibleObjective == \E i \in 1..Len(pts) : HasObj(pts[i]) /\ pts[i].feas
+NothingToReport == IF R.maskb /\ R.mask = <<>>
+                   THEN (IF SomeFeasibleObjective THEN "nothing_reported_all_candidates_duplicated" ELSE "nothing_to_report")
+                   ELSE "Raised"
+FrontV == IF ~R.frontb THEN NothingToReport ELSE FrontVerdict(pts, ToSet(R.front))
+MoV == IF R.mo.skipped THEN "not_called"
+       ELSE IF ~R.mo.built THEN NothingToReport
+       ELSE IF ~R.mo.has THEN "no_front"
+       ELSE FrontVerdict(pts, ToSet(R.mo.front))
+Judge == PrintT(ToJson(<<"P", tid, MaskV, FrontV, MoV>>))
 JudgeIsRelation == /\ (MaskV = "ok") => FrontAcceptable(pts, MaskAsFront)
                    /\ (FrontV = "ok") => FrontAcceptable(pts, ToSet(R.front))
+                   /\ (MoV = "ok") => FrontAcceptable(pts, ToSet(R.mo.front))
 ================================================================================
